@@ -585,13 +585,13 @@ def minimize_lbfgsb(
             else:
                 f0, f0_old, grad, G = update_fun_def(x, f0, f0_old, grad, X, G)
 
-                # Check stop criterion: minimum relative change in the
-                # objective function
-                if is_f0_min_change_reached(f0, f0_old, ftol, istate):
+                # Check stop criterion: minimum objective function value
+                if is_f0_target_reached(f0 / sf.scaling_factor, _ftarget, istate):
                     break  # the while loop
 
-                # Check stop criterion: minimum objective function value
-                elif is_f0_target_reached(f0 / sf.scaling_factor, _ftarget, istate):
+                # Check stop criterion: minimum relative change in the
+                # objective function
+                elif is_f0_min_change_reached(f0, f0_old, ftol, istate):
                     break  # the while loop
 
                 # We must check if the updated G satisfy the strong wolfe condition
